@@ -533,10 +533,10 @@ func genConfig(r rng, seed uint64, id string, merge bool) *sdl.Program {
 			// supplied, with the empty string
 			setPath(s.Doc, pick(r, cfgLeafStrs), pick(r, []string{"", "", "p=q", "a=b=c"}))
 		}
-		if r.p(0.06) && !many {
+		if !many && (r.p(0.08) || s.Kind == "file" && r.p(0.2)) {
 			switch s.Kind {
 			case "file":
-				s.Fault = pick(r, []string{"missing", "isdir", "garbage", "empty"})
+				s.Fault = pick(r, []string{"missing", "missing", "isdir", "garbage", "empty"})
 			case "sim":
 				s.Fault = pick(r, []string{"error", "garbage", "empty"})
 			case "raw":
@@ -912,6 +912,7 @@ func GenerateTwins(seed uint64, idFlat, idEmb string) (*sdl.Program, *sdl.Progra
 		}
 		sc.Handler = r.p(0.5)
 		sc.Inventory = r.p(0.4)
+		sc.Narrow = r.p(0.3)
 		p.Scanners = append(p.Scanners, sc)
 	}
 	for _, t := range p.Types {
